@@ -109,7 +109,9 @@ fn long_runs(ctx: &Ctx) {
             s.update(x);
             max_retained = max_retained.max(s.num_retained());
             let m = (i + 1) as u64;
-            if m.is_power_of_two() || m == n {
+            // every power of two, and every length through the first rebuild (k .. 2k+2: the
+            // exact-mode window where more than k entries are retained)
+            if m.is_power_of_two() || m == n || (m >= k as u64 && m <= 2 * k as u64 + 2) {
                 measured.fetch_add(1, Ordering::Relaxed);
                 let c = s.compact(true);
                 let img = c.serialize();
@@ -216,7 +218,7 @@ pub fn run(ctx: &Ctx) -> i32 {
         "exhaustive": true,
         "bounds": {
             "observer": "every state of the reduced-bound C02/C03 (union results, all three target types)/C04/C07/C08/C09 explorations; HLL list/set modes additionally bounded by their promotion sizes (7 coupons, 3/4 of 2^(lg_k-3))",
-            "long_runs": format!("4 streams (distinct, 16 repeated, ascending theta hash, ascending HLL value) of 2^{} hashed items: HLL lg_k {{4..=12{}}} x 3 types, theta lg_k {{5,8,12}} incl. trim, measured at every power-of-two prefix; CPC lg_k 4..={} x 4 seeds at every 1/8-octave prefix (exceedances of max_serialized_bytes counted, must be <= 0.1%)", ctx.tier.pick(18, 22), ctx.tier.pick("", ",13,14,16,21"), ctx.tier.pick(12, 14)),
+            "long_runs": format!("4 streams (distinct, 16 repeated, ascending theta hash, ascending HLL value) of 2^{} hashed items: HLL lg_k {{4..=12{}}} x 3 types, theta lg_k {{5,8,12}} incl. trim, measured at every power-of-two prefix and at every length k..2k+2; CPC lg_k 4..={} x 4 seeds at every 1/8-octave prefix (exceedances of max_serialized_bytes counted, must be <= 0.1%)", ctx.tier.pick(18, 22), ctx.tier.pick("", ",13,14,16,21"), ctx.tier.pick(12, 14)),
         },
     });
     ctx.finish(
